@@ -4,7 +4,9 @@ import PromModel.Discovery.Manager
   Suite `sd` (property C47). Op grammar (harness/suites/sd/main.go drives the real `discovery.Manager`):
 
     cfg j1=c1,c2;j2=c1;j3=      ApplyConfig: job ↦ fake discovery configs (`cfg -` = empty map; `j3=` = no SD
-                                configs, the manager falls back to `StaticConfig{{}}`, which is `c0`)   → ok
+                                configs, the manager falls back to `StaticConfig{{}}`, which is `c0`;
+                                `c9` = a real `StaticConfig` with one group `s9`, version 9000, 2 targets,
+                                sent once by the real static discoverer when its provider starts)     → ok
     upd c1 s1:5:2,nil,s2:6:0    the discoverer created for c1 sends one slice: source s1 = group version 5
                                 with 2 targets, a nil entry, source s2 = version 6 with no targets. Sent
                                 asynchronously (per-discoverer FIFO), so it races with later ops      → ok
@@ -110,15 +112,28 @@ def deliver (s : State) : State :=
 
 def provOfCfg (s : State) (c : Cfg) : Option Provider := s.providers.find? (fun p => p.cfg == c)
 
+/-- `c9`: the real static config with targets; its discoverer sends this slice once when started. -/
+def staticCfg : Cfg := 9
+def staticUpd : Upd := [some { src := 9, ver := 9000, n := 2 }]
+
+/-- The scripted discoverers only exist for the fake configs. -/
+def isStatic (c : Cfg) : Bool := c == staticEmptyCfg || c == staticCfg
+
+/-- After a reload: every provider created by it for `c9` (id ≥ the old counter) sends its slice. -/
+def startStatics (oldLast : Nat) (s : State) : State :=
+  s.providers.foldl (fun s p =>
+    if p.cfg = staticCfg ∧ oldLast ≤ p.id then stepD (stepD s (.u1 p.id staticUpd)) (.u2 p.id) else s) s
+
 def modelOp (s : State) (op : String) : State × String :=
   match toks op with
   | ["cfg", spec] =>
     match parseCfg spec with
-    | some cfg => (stepD s (.applyConfig cfg), "ok")
+    | some cfg => (startStatics s.lastProvider (stepD s (.applyConfig cfg)), "ok")
     | none => (s, "unparsable")
   | ["upd", c, u] =>
     match parseId 'c' c, parseUpd u with
     | some c, some u =>
+      if isStatic c then (s, "ok") else
       match provOfCfg s c with
       | some p => (stepD (stepD s (.u1 p.id u)) (.u2 p.id), "ok")
       | none => (s, "ok")
@@ -155,9 +170,13 @@ def jCfg (st : JSt) (cfg : List (Job × List Cfg)) : JSt :=
   let wanted := dedup (jobs.flatMap (·.2))
   { st with
     jobs := jobs
-    live := wanted.map fun c => (c, ((st.live.find? (·.1 == c)).map (·.2)).getD []) }
+    -- a config that was not live starts a new history: empty, or the static config's own slice
+    live := wanted.map fun c =>
+      (c, ((st.live.find? (·.1 == c)).map (·.2)).getD (if c = staticCfg then staticUpd else []))
+    sent := if wanted.contains staticCfg then st.sent ++ (staticUpd.filterMap id).map (fun g => (staticCfg, g)) else st.sent }
 
 def jUpd (st : JSt) (c : Cfg) (u : Upd) : JSt :=
+  if isStatic c then st else
   { st with
     live := st.live.map fun e => if e.1 = c then (e.1, e.2 ++ u) else e
     sent := st.sent ++ (u.filterMap id).map fun g => (c, g) }
